@@ -417,7 +417,7 @@ pw_block = Unit(
     desc='id[ip*b+k] == b*pid[ip]+k (negative when the point is removed), count == b*pcount, strong_connection of the '
          'scalar entry (ip*b+k, c) == ((c/b == ip || pointwise-strong(ip, c/b)) && c != ip*b+k)',
     cuts=dict(body=Cut(POINTWISE, r'count = pw_aggr\.count', kind='region',
-                       end=r'\s*\}\s*\}\s*static void remove_small_aggregates', rules=PW_RULES)),
+                       end=r'\s*\}\s*\}\s*(?:///[^\n]*\n\s*)*static \w+ remove_small_aggregates', rules=PW_RULES)),
     template='#define MODEL_INT32 1\n' + BOUNDED_PRELUDE + COARSEN_PRELUDE + SPEC_PW + r'''
 WITNESS_CRS(A)
 WITNESS_CRS(Ap)
@@ -527,7 +527,7 @@ remove_small = Unit(
          'renumbered contiguously in order; min_aggregate <= 1: nothing changes',
     cuts=dict(
         consts=consts_cut(POINTWISE),
-        body=Cut(POINTWISE, r'static void remove_small_aggregates\(\s*size_t n, unsigned block_size, unsigned min_aggregate,\s*'
+        body=Cut(POINTWISE, r'static (?:void|size_t|ptrdiff_t|int|unsigned) remove_small_aggregates\(\s*size_t n, unsigned block_size, unsigned min_aggregate,\s*'
                             r'plain_aggregates &aggr\s*\)\s*(?=\{)', rules=RSA_RULES)),
     template='#define MODEL_INT32 1\n' + BOUNDED_PRELUDE + COARSEN_PRELUDE + SPEC_RSA + r"""
 ptrdiff_t w_id[CAP_PTR]; size_t w_n, w_count; unsigned w_bs, w_min;
@@ -535,7 +535,8 @@ ptrdiff_t w_id[CAP_PTR]; size_t w_n, w_count; unsigned w_bs, w_min;
  *   requires n == aggr.id.size() <= NMAX, ids in {removed} u [0, count), count <= n     (plain_aggregates postcondition)
  *   assigns  aggr.count, aggr.id[..]
  *   ensures  see the ENSURES clauses                                                              */
-static void f_remove_small(size_t n, unsigned block_size, unsigned min_aggregate, plain_aggregates *aggr_p)
+/* the contract is on the aggregates object (count and ids); a return value, should the function have one, is not part of it */
+static long f_remove_small(size_t n, unsigned block_size, unsigned min_aggregate, plain_aggregates *aggr_p)
 {
 #define aggr (*aggr_p)
 /*@CUT:consts@*/
